@@ -25,12 +25,19 @@ class C12(Prop):
         "direction, inputs unmodified) and then once more under one metamorphic relation run on the implementation: idempotence, "
         "sorted input fixed, reversal with direction, positive affine map (dyadic a, b), weight rescaling, integer weights vs "
         "replication (mean, expectile), int64 / list / tuple containers with before/after comparison of the caller's objects. "
-        "All four functionals, both directions, levels dyadic. Non-trivial = some pooling and non-constant y; distinct = distinct "
+        "'pava_direct' = pava(y, w) itself (also with w=None) on integer data for which floats are exact, against the model's in-place array program (x and r bit for bit). All four functionals, both directions, levels dyadic. Non-trivial = some pooling and non-constant y; distinct = distinct "
         "(functional, level, direction, y, w, relation)."
     )
     assumptions = ["float rounding outside the model; affine maps and weight factors are dyadic so that they are exact in floats"]
 
     def generate(self, tier, rng):
+        L = 5354228880  # lcm(1..24): with integer weights summing to <= 24 every block mean is an integer below 2**53
+        for k in range(300 if tier == "quick" else 6000):
+            # pava() itself, called directly, against the in-place array program of the model (MD/Model/PavaArr.lean): exact
+            n = rng.randint(1, 8)
+            yield {"stream": "pava_direct", "f": "mean", "level": "1/2", "inc": True,
+                   "y": [str(rng.randint(-2, 4) * L) for _ in range(n)],
+                   "w": None if rng.random() < 0.3 else [str(rng.randint(1, 3)) for _ in range(n)]}
         for k in range(250 if tier == "quick" else 2500):
             # narrow / unsigned / boolean observation dtypes (long violating runs -> large pooled weights), all functionals
             f = rng.choice(["mean", "mean", "quantile", "median", "expectile"])
@@ -82,7 +89,22 @@ class C12(Prop):
                 continue
             yield c
 
+    def impl_pava(self, case):
+        from model_diagnostics._utils.isotonic import pava
+
+        y = np.array([float(Fraction(v)) for v in case["y"]])
+        w = None if case["w"] is None else np.array([float(Fraction(v)) for v in case["w"]])
+        y0, w0 = y.copy(), None if w is None else w.copy()
+        try:
+            x, r = pava(y, w)
+        except Exception as e:
+            return {"err": exc_class(e), "msg": str(e)[:200]}
+        return {"x": [float(v) for v in x], "r": [int(v) for v in r],
+                "unchanged": bool(np.array_equal(y, y0) and (w is None or np.array_equal(w, w0)))}
+
     def impl(self, case):
+        if case["stream"] == "pava_direct":
+            return self.impl_pava(case)
         base = ic.call_iso(case)
         if "err" in base:
             return base
@@ -132,14 +154,28 @@ class C12(Prop):
         return out
 
     def model_request(self, case):
+        if case["stream"] == "pava_direct":
+            return {"op": "pava_arr", "y": case["y"], "w": case["w"] or ["1"] * len(case["y"])}
         return ic.iso_request(case)
 
     def compare(self, case, io, mo):
+        if case["stream"] == "pava_direct":
+            if "err" in io:
+                return f"pava raised {io['err']}: {io.get('msg')}"
+            if [Fraction(v) for v in io["x"]] != [Fraction(v) for v in mo["x"]]:
+                return f"pava: x = {io['x']}, array program of the model {[float(Fraction(v)) for v in mo['x']]}"
+            if io["r"] != mo["r"]:
+                return f"pava: r = {io['r']}, array program of the model {mo['r']}"
+            return None
         return ic.compare_xr(io, mo, exact=False, tol=1e-7 if case["f"] == "expectile" else 1e-9, scale=ic.data_scale(case), ylocal=case["y"])
 
     def oracle(self, case, io):
         if "err" in io:
             return f"valid input rejected with {io['err']}"
+        if case["stream"] == "pava_direct":
+            if not io["unchanged"]:
+                return "pava modified its input arrays"
+            return ic.contract_oracle(case, io, 1e-9)
         tol = 1e-7 if case["f"] == "expectile" else 1e-9
         c = ic.contract_oracle(case, io, tol)
         if c:
